@@ -5,9 +5,9 @@ from .. import hx
 ID = "C01"
 LEVEL = "model_checking"
 BOUNDS = {
-    "quick": "two trains with 0..3 spikes each (all 16 size pairs), MRTS omitted and symbolic >= 0, "
+    "quick": "two trains with 0..3 spikes each (all 16 size pairs) plus the asymmetric pairs (0|1|2)+5 in both orders, MRTS omitted and symbolic >= 0, "
              "backends py and pyx; all real spike times/edges incl. ties and spikes on the edges",
-    "thorough": "two trains with 0..4 spikes each (all 25 size pairs), MRTS omitted and symbolic >= 0, py and pyx",
+    "thorough": "two trains with 0..4 spikes each (all 25 size pairs) plus (0|1|2|3)+5 and 1+6 in both orders, MRTS omitted and symbolic >= 0, py and pyx",
 }
 OUTSIDE = "more than 3 (quick) / 4 (thorough) spikes per train; float rounding"
 ASSUMPTIONS = ["oracle: hx.isi_profile_oracle (breakpoints by insertion, ISI containing the piece midpoint by linear scan)"]
@@ -21,6 +21,14 @@ def configs(tier):
                 for n2 in range(n + 1):
                     yield dict(name="%s-m%s-%d+%d" % (be, mk, n1, n2), backend=be, m=mk,
                                n1=n1, n2=n2, cost=4 ** (n1 + n2))
+            # asymmetric pairs with one long train (code that only triggers from 4-5 spikes on)
+            for (n1, n2) in LONG[tier]:
+                yield dict(name="%s-m%s-%d+%d" % (be, mk, n1, n2), backend=be, m=mk, n1=n1, n2=n2,
+                           cost=4 ** (min(n1, n2) + 3), split_forks=(8 if n1 + n2 >= 7 else None))
+
+
+LONG = {"quick": [(1, 5), (5, 1), (0, 5), (5, 0), (2, 5), (5, 2)],
+        "thorough": [(1, 5), (5, 1), (0, 5), (5, 0), (2, 5), (5, 2), (1, 6), (6, 1), (3, 5), (5, 3)]}
 
 
 def controls(tier):
